@@ -232,19 +232,21 @@ theorem shapes_as_written :
       SHAPE_LIST_ENCODE_ONE_lost ||
       SHAPE_STRUCT_ENCODE_lost ||
       SHAPE_REE_ENCODE_lost ||
-      SHAPE_ROWS_PUSH_lost) = false := by decide
+      SHAPE_ROWS_PUSH_lost ||
+      SHAPE_UNION_ENCODE_lost || SHAPE_FROM_BINARY_lost) = false := by decide
 
 /-! ### nested types
 
-`Struct`, `List` kinds, `Map`, `FixedSizeList`, `Dictionary`, `RunEndEncoded`, `Null` of any
-nesting depth.  `cmpN` (Model.lean) is the logical order: nulls first/last by `nulls_first`; struct
-children lexicographically under the struct's options; list elements lexicographically, a
-proper prefix first, elements compared under the child options
+`Struct`, `List` kinds, `Map`, `FixedSizeList`, `Dictionary`, `RunEndEncoded`, `Union`, `Null` of
+any nesting depth.  `cmpN` (Model.lean) is the logical order: nulls first/last by `nulls_first`;
+struct children lexicographically under the struct's options; list elements lexicographically,
+a proper prefix first, elements compared under the child options
 `{descending: false, nulls_first: nulls_first != descending}` and the whole reversed when
 descending (which is how element nulls end up where `nulls_first` says); fixed-size lists
 element-wise; maps like lists of (key, value) entries; dictionary and run-end values as their
-plain values.  `Union` is excluded (`unionFree`): the Union encoding does *not* preserve order under `descending`
-(known finding), so no such theorem exists for it. -/
+plain values; union values by type id, then by the value of the common variant under the child
+options, the whole reversed when descending.  The only hypothesis on the type is `wfTy`: every
+union has one type id < 128 per field, pairwise distinct (what `UnionFields` guarantees). -/
 
 /-- **List step** (`list::encode_one`): with non-empty element rows, the list encoding
 (every element row variable-length encoded, then the terminator) compares like the lists of
@@ -259,25 +261,26 @@ theorem list_order_step (o : SortOptions) (xs ys : List (List UInt8))
 example : compareBytes (listEnc ⟨true, false⟩ [[1], [2]]) (listEnc ⟨true, false⟩ [[1]]) = .lt :=
   (list_order_step _ _ _ (by decide) (by decide)).1.trans (by decide)
 
-/-- **Nested field level, every depth**: for every union-free type, options and conforming
+/-- **Nested field level, every depth**: for every well-formed type, options and conforming
 values, byte comparison of the encodings equals the logical comparison `cmpN`, and no
 encoding is a proper prefix of another. -/
-theorem nested_order (t : Ty) (o : SortOptions) (a b : Val) (hu : unionFree t = true)
+theorem nested_order (t : Ty) (o : SortOptions) (a b : Val) (hu : wfTy t = true)
     (ha : conforms t a = true) (hb : conforms t b = true) :
     compareBytes (encode o t a) (encode o t b) = cmpN t o a b ∧
     (encode o t a <+: encode o t b → encode o t a = encode o t b) :=
   ⟨compareBytes_of_cmpStrict (encode_cmpN t o a b hu ha hb), eq_of_prefix_of_cmpStrict (encode_cmpN t o a b hu ha hb)⟩
 
-example : unionFree (.map (.leaf .bin) (.leaf .bool)) = true ∧
-    unionFree (.list (.struct [.leaf (.int true 4), .ree (.leaf .bin)])) = true ∧
+example : wfTy (.union [7, 0, 9] [.leaf (.float 2), .leaf .bin, .list (.leaf .bool)]) = true ∧
+    wfTy (.map (.leaf .bin) (.leaf .bool)) = true ∧
+    wfTy (.list (.struct [.leaf (.int true 4), .ree (.leaf .bin)])) = true ∧
     conforms (.list (.struct [.leaf (.int true 4), .ree (.leaf .bin)]))
       (.list [.tuple [.int (-7), .bytes [0, 255]], .null, .tuple [.null, .null]]) = true := by decide
 
 /-- **Rows of nested fields: byte order = lexicographic tuple order**, with per-field
-options, for every schema of union-free fields; rows are byte-equal exactly when they compare
+options, for every schema of well-formed fields; rows are byte-equal exactly when they compare
 equal, and never proper prefixes of one another. -/
 theorem nested_row_order (fs : List (Ty × SortOptions)) (r1 r2 : List Val)
-    (hu : ∀ f ∈ fs, unionFree f.1 = true) (h1 : conformsRow fs r1 = true) (h2 : conformsRow fs r2 = true) :
+    (hu : ∀ f ∈ fs, wfTy f.1 = true) (h1 : conformsRow fs r1 = true) (h2 : conformsRow fs r2 = true) :
     compareBytes (encodeRowN fs r1) (encodeRowN fs r2) = cmpRowN fs r1 r2 ∧
     (encodeRowN fs r1 = encodeRowN fs r2 ↔ cmpRowN fs r1 r2 = .eq) ∧
     (encodeRowN fs r1 <+: encodeRowN fs r2 → encodeRowN fs r1 = encodeRowN fs r2) := by
@@ -287,6 +290,13 @@ theorem nested_row_order (fs : List (Ty × SortOptions)) (r1 r2 : List Val)
     exact (Option.some.inj h).symm
   · rw [hc] at h
     exact cmpStrict_eq_iff.mp h
+
+/-- **Union values, every `SortOptions`** (after the repair of the descending case): the type
+id byte and the child row are both inverted when descending, so values of the same variant
+compare in descending order and nulls land where `nulls_first` says. -/
+example : compareBytes (encode ⟨true, false⟩ (.union [0] [.leaf .bool]) (.union 0 (.int 1)))
+    (encode ⟨true, false⟩ (.union [0] [.leaf .bool]) (.union 0 (.int 0))) = .lt :=
+  (nested_order _ _ _ _ (by decide) (by decide) (by decide)).1.trans (by decide)
 
 /-- the model's `List` case is `listEnc` of the element encodings -/
 theorem encode_list (o : SortOptions) (t : Ty) (vs : List Val) :
